@@ -9,14 +9,22 @@ from twisted.internet.testing import StringTransport
 HEADLINE = "TwistedProps.C38.transparent"
 RULE = ("send: 1..5 write/writeSequence calls (the sequence as list, tuple, generator or iterator) whose byte strings are drawn from an alphabet rich in 0xFF, LF, "
         "the telnet command bytes 0xEF..0xFE, NUL (and CR in a minority of cases, tie only), the wire cut at "
-        "none / every / random offsets (empty segments included); recv: raw wire streams from the telnet grammar "
+        "none / every / random offsets (empty segments included); one send case in four is a HISTORY with the sender's own telnet layer "
+        "in between the writes (will(opt) / do(opt) on fresh options incl. 0 = TRANSMIT-BINARY, 0xFF, CR, LF; requestNegotiation(about, data) "
+        "with data rich in IAC/SE/CR/LF), delivered to a peer whose application refuses or ACCEPTS every option; a LARGE class (34 quick / 420 thorough "
+        "cases + corpus): one write or writeSequence of 4095..70000 bytes (thorough up to 200000) at the sizes 2^k-1, 2^k, 2^k+1 for k=12..16, periodic "
+        "patterns rich in IAC/LF/NUL given as #<n>.<k>, delivered whole, in 1024/4096/8192/65536-byte reads or cut at random; "
+        "recv: raw wire streams from the telnet grammar "
         "(data, IAC IAC, IAC cmd, IAC WILL/WONT/DO/DONT opt, IAC SB … IAC SE, CR LF / CR NUL / bare CR / CR IAC, "
         "malformed: IAC+other, empty subnegotiation) randomly segmented; distinct = (op kinds, special bytes "
-        "present, whether a cut splits an escape pair, event kinds, exceptions, final parser state)")
+        "present, whether a cut splits an escape pair, event kinds, exceptions, final parser state, negotiation ops / accepting peer, size bucket and read size of large cases)")
 ASSUMES = [
     "application bytes contain no CR (0x0D) — the property's own precondition; a bare CR is not restored by the receiver",
     "the underlying transport delivers the written bytes unchanged and in order (any segmentation, empty segments allowed)",
-    "the receiving Telnet instance starts in state 'data' (fresh connection)",
+    "the receiving Telnet instance starts in state 'data' (fresh connection); what precedes the application bytes on the connection "
+    "is the sender's own complete negotiation traffic (will/do/requestNegotiation), nothing else",
+    "negotiation histories: each option is offered/requested at most once per connection (a second will/do of the same option writes nothing: "
+    "AlreadyNegotiating), the subnegotiation's option byte is not 0xFF (telnet.py does not escape it); the peer's replies are not fed back to the sender",
 ]
 TRUSTED = [
     "twisted.internet.testing.StringTransport as the byte sink (write/writeSequence concatenate)",
@@ -25,6 +33,8 @@ TRUSTED = [
     "lean/Generated/Telnet.lean on every run — each method as the bytes it hands on, the chained data.replace(b'\\xff', "
     "b'\\xff\\xff') / data.replace(b'\\n', b'\\r\\n') as the translator's fixed pyReplace1; translator-regenerated kernel proved "
     "equal to the model: TwistedProps.C38.gen_write, gen_wire)",
+    "large cases: wire / application chunks longer than 48 bytes are compared as <length>.<polynomial digest mod 1e9+7> (same fold in "
+    "Python and in the Lean driver); the oracle judges the real bytes, not the digest",
 ]
 MANIFEST = {
     "text": "Lean theorems (TwistedProps/C38.lean): for every history of write/writeSequence calls with CR-free byte "
@@ -32,17 +42,26 @@ MANIFEST = {
             "machine raises nothing, makes no commandReceived/negotiate call, delivers exactly the written bytes to "
             "applicationDataReceived and ends in state 'data'; every LF travels as CR LF. Proved via a byte-level trace "
             "semantics shown equal to the chunked loop with its local buffer (segmentation invariance for every non-raising "
-            "stream) and a literal-consumption lemma for the escape image. TelnetTransport.write's escaping is regenerated from "
+            "stream) and a literal-consumption lemma for the escape image. Extended to histories in which the sender's telnet layer "
+            "negotiates in between (transparent_with_negotiation: IAC WILL/WONT/DO/DONT opt and IAC SB about data IAC SE with any data): "
+            "the only commandReceived/negotiate calls are the sender's own, in order, and the application bytes are still exactly the written ones. "
+            "TelnetTransport.write's escaping is regenerated from "
             "telnet.py by the translator on every run and proved equal to the model's write (gen_write). Model tied to telnet.py by differential runs of "
-            "sender and receiver, event by event.",
-    "note": "trusts Lean kernel, the hand-written model of TelnetTransport.write/writeSequence and Telnet.dataReceived "
-            "(differentially tied), StringTransport, CPython bytes.replace",
-    "technique": "Lean 4 proof (trace semantics + induction over bytes/segments) + differential tie + translator-regenerated "
+            "sender and receiver, event by event, incl. negotiation histories and writes/reads of up to 70000 (thorough 200000) bytes "
+            "(the driver's accumulator loop is proved equal to the model's loop: feedEachFast_eq).",
+    "note": "trusts Lean kernel, the hand-written model of TelnetTransport.write/writeSequence, Telnet._will/_do/requestNegotiation (as the bytes they write) "
+            "and Telnet.dataReceived (differentially tied), StringTransport, CPython bytes.replace",
+    "technique": "Lean 4 proof (trace semantics + induction over bytes/segments/history) + differential tie + translator-regenerated "
                  "kernel (TelnetTransport.write) proved equal to the model",
     "design_ref": "DESIGN.md §7 C38",
 }
 
 SPECIAL = [0xFF, 0xFF, 0xFF, 0x0A, 0x0A, 0xF4, 0xF0, 0xFA, 0xFB, 0xFD, 0xEF, 0xF1, 0xF9, 0xFE, 0xFC, 0x00, 0x61, 0x62, 0x20, 0x7F, 0xEE]
+
+# periodic patterns of the large class: the token `#<n>.<k>` is the first n bytes of PATS[k] repeated (same table in Drv/C38.lean)
+PATS = [b"a", b"ab\n\xff", b"\xff", b"\n", b"x\xff\xf4y\n\x00", b"\xff\n", b"\xfa\xff\xf0\n\xffz"]
+DIGEST_OVER = 48
+CMD = {"will": 0xFB, "wont": 0xFC, "do": 0xFD, "dont": 0xFE}
 
 
 def hx(b):
@@ -50,55 +69,112 @@ def hx(b):
 
 
 def unhx(s):
-    return b"" if s == "-" else bytes.fromhex(s)
+    if s == "-":
+        return b""
+    if s.startswith("#"):
+        n, k = s[1:].split(".")
+        n, p = int(n), PATS[int(k)]
+        return (p * (n // len(p) + 1))[:n]
+    return bytes.fromhex(s)
+
+
+def digest(b):
+    h = 0
+    for x in b:
+        h = (h * 257 + x + 1) % 1000000007
+    return h
+
+
+def hxo(b, z):
+    """output form: hex; in a large case anything longer than DIGEST_OVER bytes as ~<len>.<digest>"""
+    if z and len(b) > DIGEST_OVER:
+        return f"~{len(b)}.{digest(b)}"
+    return hx(b)
+
+
+def _tokens(c):
+    for op in c.get("ops", ()):
+        if op[0] == "w":
+            yield op[1]
+        elif op[0] == "s":
+            yield from op[1]
+
+
+def _isbig(c):
+    return c["op"] == "send" and any(t.startswith("#") for t in _tokens(c))
 
 
 # ---------------------------------------------------------------------------------------
 # the real code
 
 class _App(telnet.TelnetProtocol):
-    """The peer application: records what it is given."""
+    """The peer application: records what it is given; refuses (TelnetProtocol's default) or accepts every option."""
 
-    def __init__(self, log):
+    def __init__(self, log, accept=False):
         self.log = log
+        self.accept = accept
 
     def dataReceived(self, data):
-        self.log.append("A" + hx(data))
+        self.log.append(("A", bytes(data)))
+
+    def enableLocal(self, option):
+        return self.accept
+
+    def enableRemote(self, option):
+        return self.accept
 
 
 class _Recv(telnet.TelnetTransport):
     """Real TelnetTransport; commandReceived / negotiate are observed, then run unchanged."""
 
-    def __init__(self, log):
-        telnet.TelnetTransport.__init__(self, _App, log)
+    def __init__(self, log, accept=False):
+        telnet.TelnetTransport.__init__(self, _App, log, accept)
         self.log = log
 
     def commandReceived(self, command, argument):
-        self.log.append("C" + command.hex() + ":" + ("-" if argument is None else argument.hex()))
+        self.log.append(("C", command.hex() + ":" + ("-" if argument is None else argument.hex())))
         telnet.TelnetTransport.commandReceived(self, command, argument)
 
     def negotiate(self, data):
         telnet.TelnetTransport.negotiate(self, data)
-        self.log.append("N" + hx(b"".join(data)))
+        self.log.append(("N", b"".join(data)))
 
 
 STATES = ("data", "escaped", "command", "newline", "subnegotiation", "subnegotiation-escaped")
 
 
-def _receive(segs):
+def _receive(segs, accept=False):
+    """→ (events per dataReceived call, final state); event = ("A", bytes) | ("C", "cc:aa") | ("N", bytes) | ("!", name)"""
     out = []
     log = []
-    r = _Recv(log)
+    r = _Recv(log, accept)
     r.makeConnection(StringTransport())
     for s in segs:
         del log[:]
         try:
             r.dataReceived(s)
         except (ValueError, IndexError) as e:
-            log.append("!" + type(e).__name__)
-        out.append(",".join(log) if log else "-")
+            log.append(("!", type(e).__name__))
+        out.append(list(log))
     assert r.state in STATES
-    return "|".join(out) + " state=" + r.state
+    return out, r.state
+
+
+def _show_ev(ev, z):
+    if ev[0] == "A":
+        return "A" + hxo(ev[1], z)
+    if ev[0] == "N":
+        return "N" + hxo(ev[1], z)
+    return ev[0] + ev[1]
+
+
+def _show(res, z=False):
+    segs, state = res
+    return "|".join(",".join(_show_ev(e, z) for e in seg) if seg else "-" for seg in segs) + " state=" + state
+
+
+def _swallow(f):
+    return None
 
 
 def _send(ops):
@@ -108,8 +184,15 @@ def _send(ops):
     for op in ops:
         if op[0] == "w":
             t.write(unhx(op[1]))
-        else:
+        elif op[0] == "s":
             t.writeSequence(_container([unhx(x) for x in op[1]], op[2] if len(op) > 2 else "list"))
+        elif op[0] == "c":
+            # the sender's own telnet layer: will/do(option) — IAC WILL/DO option through Telnet._write
+            getattr(t, op[1])(unhx(op[2])).addErrback(_swallow)
+        elif op[0] == "n":
+            t.requestNegotiation(unhx(op[1]), unhx(op[2]))
+        else:
+            raise AssertionError(op)
     return st.value()
 
 
@@ -136,11 +219,23 @@ def _cut(w, cuts):
     return segs
 
 
+_LAST = {"key": None, "res": None}
+
+
+def _run_send(c):
+    w = _send(c["ops"])
+    res = (w,) + _receive(_cut(w, c["cuts"]), bool(c.get("accept")))
+    _LAST["key"], _LAST["res"] = repr(c), res
+    return res
+
+
 def run_impl(c):
     if c["op"] == "recv":
-        return _receive([unhx(s) for s in c["segs"]])
-    w = _send(c["ops"])
-    return "wire=" + hx(w) + " " + _receive(_cut(w, c["cuts"]))
+        return _show(_receive([unhx(s) for s in c["segs"]]))
+    _LAST["key"] = None
+    z = _isbig(c)
+    w, segs, state = _run_send(c)
+    return "wire=" + hxo(w, z) + " " + _show((segs, state), z)
 
 
 def model_line(c):
@@ -148,15 +243,43 @@ def model_line(c):
         return "recv " + ",".join(c["segs"])
     ops = []
     for op in c["ops"]:
-        ops.append("w:" + op[1] if op[0] == "w" else "s:" + ";".join(op[1]))
-    return "send " + (",".join(str(x) for x in c["cuts"]) if c["cuts"] else "-") + " " + " ".join(ops)
+        if op[0] == "w":
+            ops.append("w:" + op[1])
+        elif op[0] == "s":
+            ops.append("s:" + ";".join(op[1]))
+        elif op[0] == "c":
+            ops.append("c:%02x%s" % (CMD[op[1]], op[2]))
+        else:
+            ops.append("n:" + op[1] + ":" + op[2])
+    return ("sendz " if _isbig(c) else "send ") + (",".join(str(x) for x in c["cuts"]) if c["cuts"] else "-") + " " + " ".join(ops)
 
 
 # ---------------------------------------------------------------------------------------
 # the property on the implementation (independent of the model)
 
 def _payload(c):
-    return b"".join(unhx(op[1]) if op[0] == "w" else b"".join(unhx(x) for x in op[1]) for op in c["ops"])
+    return b"".join(unhx(op[1]) if op[0] == "w" else b"".join(unhx(x) for x in op[1]) for op in c["ops"] if op[0] in "ws")
+
+
+def _own_commands(c):
+    """what the SENDER's telnet layer was asked to transmit (not application data): the only commandReceived /
+    negotiate calls the peer may see"""
+    out = []
+    for op in c["ops"]:
+        if op[0] == "c":
+            out.append("C%02x:%s" % (CMD[op[1]], op[2]))
+        elif op[0] == "n":
+            out.append("N" + hx(unhx(op[1]) + unhx(op[2])))
+    return out
+
+
+def _short(b):
+    return repr(b) if len(b) <= 40 else f"{b[:24]!r}…({len(b)} bytes)"
+
+
+def _firstdiff(a, b):
+    n = next((i for i, (x, y) in enumerate(zip(a, b)) if x != y), min(len(a), len(b)))
+    return f"first difference at offset {n}: wrote {a[n:n + 8]!r}, received {b[n:n + 8]!r}; lengths {len(a)} / {len(b)}"
 
 
 def oracle(c, out):
@@ -168,30 +291,34 @@ def oracle(c, out):
     seq_special = any(op[0] == "s" and any((b"\xff" in unhx(x)) or (b"\n" in unhx(x)) for x in op[1]) for op in c["ops"])
     key = "writeSequence-unescaped" if seq_special else "write-not-transparent"
     if not out.startswith("wire="):
-        return {"key": key, "detail": f"writing {pay!r} / receiving raised: {out}"}
-    wirepart, rest = out.split(" ", 1)
-    wire = unhx(wirepart[5:])
-    segtxt, state = rest.rsplit(" state=", 1)
-    got, other = b"", []
-    for seg in segtxt.split("|"):
-        if seg == "-":
-            continue
-        for ev in seg.split(","):
-            if ev.startswith("A"):
-                got += unhx(ev[1:])
-            else:
-                other.append(ev)
-    if other:
-        return {"key": key, "detail": f"application bytes {pay!r} (wire {wire!r}) were interpreted as telnet "
-                                      f"commands / raised: {other}; application received {got!r}"}
+        return {"key": key, "detail": f"writing {_short(pay)} / receiving raised: {out[:200]}"}
+    # the real bytes of this run (large cases show digests in `out`); re-run the real code if this is not the last case run
+    wire, segs, state = _LAST["res"] if _LAST["key"] == repr(c) else _run_send(c)
+    got = b"".join(ev[1] for seg in segs for ev in seg if ev[0] == "A")
+    other = [_show_ev(ev, False) for seg in segs for ev in seg if ev[0] != "A"]
+    # IAC (any byte) of application data is never interpreted as telnet: every command / negotiation the peer sees is one the
+    # sender's telnet layer was asked to send
+    own = _own_commands(c)
+    extra = list(other)
+    for x in own:
+        if x in extra:
+            extra.remove(x)
+    if extra:
+        return {"key": key, "detail": f"application bytes {_short(pay)} (wire {_short(wire)}) were interpreted as telnet "
+                                      f"commands / raised: {extra[:6]}; application received {_short(got)}"}
     if got != pay:
-        return {"key": key, "detail": f"application wrote {pay!r}, peer application received {got!r} (wire {wire!r})"}
+        return {"key": key, "detail": f"application wrote {_short(pay)}, peer application received {_short(got)} (wire {_short(wire)})"
+                                      + ("; " + _firstdiff(pay, got) if len(pay) > 40 else "")
+                                      + (f"; sender's own telnet traffic in between: {own}, peer accepts options: {bool(c.get('accept'))}" if own else "")}
     if state != "data":
-        return {"key": key, "detail": f"receiver left in state {state!r} after complete messages {pay!r}: the next byte is swallowed"}
-    # line feeds travel as CR LF (payload has no CR of its own)
-    nlf = pay.count(b"\n")
-    if wire.count(b"\r\n") != nlf or wire.count(b"\n") != nlf or wire.count(b"\r") != nlf:
-        return {"key": key, "detail": f"line feeds of {pay!r} not sent as CR LF: wire {wire!r}"}
+        return {"key": key, "detail": f"receiver left in state {state!r} after complete messages {_short(pay)}: the next byte is swallowed"}
+    # line feeds travel as CR LF (payload has no CR of its own); judged on the whole wire unless the sender's own
+    # negotiation traffic carries CR / LF byte values itself
+    if not any(b in unhx(t) for op in c["ops"] if op[0] in "cn" for t in op[1:] if op[0] == "n" or t is op[2] for b in b"\r\n"):
+        nlf = pay.count(b"\n")
+        if wire.count(b"\r\n") != nlf or wire.count(b"\n") != nlf or wire.count(b"\r") != nlf:
+            return {"key": key, "detail": f"line feeds of {_short(pay)} not sent as CR LF: wire {_short(wire)} has {wire.count(b'\r\n')} CR LF, "
+                                          f"{wire.count(b'\n')} LF, {wire.count(b'\r')} CR for {nlf} line feeds"}
     return None
 
 
@@ -211,6 +338,18 @@ def corpus():
         {"op": "send", "cuts": [0, 0, 3], "ops": [["s", ["-", "61", "-"]], ["w", "fffb01"]]},
         {"op": "send", "cuts": [1], "ops": [["w", "0d0a"]]},           # CR in data: outside the precondition, tie only
         {"op": "send", "cuts": [], "ops": [["w", "610d"]]},
+        # histories with the sender's own negotiation in between (mutants m09 m10 m11): application data right before a command,
+        # a subnegotiation with IAC / SE / CR LF in its data, TRANSMIT-BINARY offered / requested and accepted by the peer
+        {"op": "send", "cuts": [], "accept": False, "ops": [["w", "6162630a"], ["c", "will", "01"], ["w", "6465660a"]]},
+        {"op": "send", "cuts": [], "accept": False, "ops": [["w", "61ff"], ["n", "1f", "0050fff00d0a18"], ["s", ["0a", "ff62"]]]},
+        {"op": "send", "cuts": [5], "accept": True, "ops": [["w", "610a"], ["c", "will", "00"], ["w", "620a63"], ["c", "do", "03"], ["w", "0aff"]]},
+        {"op": "send", "cuts": [], "accept": True, "ops": [["c", "do", "00"], ["s", ["780a", "0a79"], "gen"]]},
+        {"op": "send", "cuts": [1, 2, 3, 4, 5, 6, 7, 8], "accept": True, "ops": [["c", "will", "ff"], ["w", "ff0a"], ["n", "00", "-"], ["w", "0a"]]},
+        # large writes / reads (mutants m05 m07): around 4096 and 65536, whole and in 4096-byte reads
+        {"op": "send", "cuts": [], "ops": [["w", "#4097.0"]]},
+        {"op": "send", "cuts": [], "ops": [["s", ["#4096.4", "#2.5"]]]},
+        {"op": "send", "cuts": [], "ops": [["s", ["#40000.1", "#25536.4"], "tuple"]]},
+        {"op": "send", "cuts": list(range(4096, 100000, 4096)), "ops": [["w", "#65537.6"], ["s", ["#65536.5"], "gen"]]},
         {"op": "recv", "segs": ["fffb01fffc01fffd01fffe01"]},
         {"op": "recv", "segs": ["61ff", "f4", "62"]},
         {"op": "recv", "segs": ["fffa1f0050ffff0018fff0"]},
@@ -228,7 +367,26 @@ def _bytes(rng, n, cr=False):
                  for _ in range(n))
 
 
-def _gen_send(rng):
+OPTS = [0x00, 0x00, 0x00, 0x01, 0x03, 0x18, 0x1F, 0x22, 0x0A, 0x0D, 0xFF, 0xF0]
+ABOUT = [0x1F, 0x1F, 0x18, 0x22, 0x00, 0xF0, 0x0A, 0xFA]
+
+
+def _neg_ops(rng, k):
+    """k calls on the sender's own telnet layer; every option at most once (a second will/do of it writes nothing)"""
+    used, out = set(), []
+    for _ in range(k):
+        if rng.random() < 0.6:
+            opt = rng.choice([o for o in OPTS if o not in used])
+            used.add(opt)
+            out.append(["c", rng.choice(["will", "do"]), "%02x" % opt])
+        else:
+            n = rng.choice([0, 0, 1, 2, 4, 6])
+            data = _bytes(rng, n, True) if rng.random() < 0.35 else bytes(rng.choice([0x00, 0x50, 0x18, 0xFF, 0xF0, 0xFA, 0x01]) for _ in range(n))
+            out.append(["n", "%02x" % rng.choice(ABOUT), hx(data)])
+    return out
+
+
+def _gen_send(rng, neg=None):
     cr = rng.random() < 0.12
     ops = []
     for _ in range(rng.choice([1, 1, 2, 3, 4, 5])):
@@ -238,7 +396,11 @@ def _gen_send(rng):
             ops.append(["s", [hx(_bytes(rng, rng.choice([0, 1, 1, 2, 4, 7]), cr)) for _ in range(rng.choice([0, 1, 2, 3, 4]))],
                         rng.choice(["list", "list", "tuple", "gen", "iter"])])
     c = {"op": "send", "ops": ops, "cuts": []}
-    n = 2 * len(_payload(c)) + 2
+    if neg if neg is not None else rng.random() < 0.25:
+        for op in _neg_ops(rng, rng.choice([1, 1, 2, 3])):
+            ops.insert(rng.randrange(len(ops) + 1), op)
+        c["accept"] = rng.random() < 0.5
+    n = 2 * len(_payload(c)) + 2 + sum(5 + 2 * len(unhx(op[2])) if op[0] == "n" else 3 for op in ops if op[0] in "cn")
     m = rng.random()
     if m < 0.2:
         cuts = []
@@ -246,6 +408,43 @@ def _gen_send(rng):
         cuts = list(range(1, n))
     else:
         cuts = sorted(rng.randrange(0, n + 1) for _ in range(rng.randint(1, min(8, n))))
+    c["cuts"] = cuts
+    return c
+
+
+BIG_SIZES = [4095, 4096, 4097, 4098, 8191, 8192, 8193, 16383, 16384, 16385, 32767, 32768, 32769, 65535, 65536, 65537, 70000]
+BIG_SIZES_THOROUGH = [131071, 131072, 131073, 200000]
+
+
+def _gen_big(rng, tier, i):
+    """one write / writeSequence of a boundary size; the sizes are walked through in turn — first pass writeSequence, second pass
+    write, then mixed — so that every quick run has every size in both forms"""
+    sizes = BIG_SIZES + (BIG_SIZES_THOROUGH if tier != "quick" else [])
+    n = sizes[i % len(sizes)]
+    k = rng.choice([0, 1, 1, 2, 3, 4, 4, 5, 6, 6])
+    form = rng.random() * 0.6 + (0.4 if i // len(sizes) == 0 else 0.0 if i // len(sizes) == 1 else rng.choice([0.0, 0.4]))
+    if form < 0.4:
+        op = ["w", f"#{n}.{k}"]
+    elif form < 0.6:
+        op = ["s", [f"#{n}.{k}"], rng.choice(["list", "tuple", "gen", "iter"])]
+    else:
+        a = rng.choice([1, 2, n // 2, n - 1, rng.randrange(1, n)])
+        el = [f"#{a}.{k}", f"#{n - a}.{rng.choice([1, 4, 5, 6, rng.randrange(len(PATS))])}"]
+        if rng.random() < 0.4:
+            el.insert(rng.randrange(3), hx(_bytes(rng, rng.choice([0, 1, 3]))))
+        op = ["s", el, rng.choice(["list", "tuple", "gen", "iter"])]
+    ops = [op]
+    if rng.random() < 0.3:
+        ops.insert(rng.randrange(2), ["w", hx(_bytes(rng, rng.choice([1, 3, 8])))])
+    c = {"op": "send", "ops": ops, "cuts": []}
+    m = rng.random()
+    if m < 0.45:
+        cuts = []
+    elif m < 0.75:
+        step = rng.choice([1024, 4096, 8192, 65536])
+        cuts = list(range(step, 2 * n + 20, step))
+    else:
+        cuts = sorted(rng.randrange(0, 2 * n) for _ in range(rng.randint(1, 4)))
     c["cuts"] = cuts
     return c
 
@@ -285,29 +484,53 @@ def _gen_stream(rng):
 
 def generate(rng, tier):
     n = 2500 if tier == "quick" else 60000
+    nbig = 34 if tier == "quick" else 420
+    every = n // nbig
     for i in range(n):
+        if i % every == every // 2 and i // every < nbig:
+            yield _gen_big(rng, tier, i // every)
         yield _gen_send(rng) if rng.random() < 0.6 else _gen_stream(rng)
 
 
 def search(rng, tier, disagreeing):
     """Property-directed: every call as write and as writeSequence (whole / per byte), every cut set of
-    size ≤ 1 and the all-bytes cut, around the disagreeing cases and the corpus; then fresh random sends."""
-    seeds = [c for c in disagreeing if c.get("op") == "send"] + [c for c in corpus() if c["op"] == "send"]
+    size ≤ 1 and the all-bytes cut, around the (small) disagreeing cases and the corpus, the sender's own negotiation
+    calls kept in place; then fresh random sends, half of them negotiation histories."""
+    small = lambda c: c.get("op") == "send" and not _isbig(c) and len(_payload(c)) <= 64
+    seeds = [c for c in disagreeing if small(c)] + [c for c in corpus() if small(c)]
     for c in seeds[:40]:
-        pays = [unhx(op[1]) if op[0] == "w" else b"".join(unhx(x) for x in op[1]) for op in c["ops"]]
+        pays = [op if op[0] in "cn" else unhx(op[1]) if op[0] == "w" else b"".join(unhx(x) for x in op[1]) for op in c["ops"]]
         forms = [
-            [["w", hx(p)] for p in pays],
-            [["s", [hx(p)]] for p in pays],
-            [["s", [hx(p[i:i + 1]) for i in range(len(p))]] for p in pays],
+            [p if isinstance(p, list) else ["w", hx(p)] for p in pays],
+            [p if isinstance(p, list) else ["s", [hx(p)]] for p in pays],
+            [p if isinstance(p, list) else ["s", [hx(p[i:i + 1]) for i in range(len(p))]] for p in pays],
         ]
-        n = 2 * sum(len(p) for p in pays) + 1
+        n = 2 * sum(len(p) for p in pays if not isinstance(p, list)) + 1 + 12 * sum(1 for p in pays if isinstance(p, list))
+        extra = {"accept": c["accept"]} if "accept" in c else {}
         for ops in forms:
-            yield {"op": "send", "ops": ops, "cuts": []}
-            yield {"op": "send", "ops": ops, "cuts": list(range(1, n))}
+            yield {"op": "send", "ops": ops, "cuts": [], **extra}
+            yield {"op": "send", "ops": ops, "cuts": list(range(1, n)), **extra}
             for k in range(n):
-                yield {"op": "send", "ops": ops, "cuts": [k]}
-    for _ in range(3000 if tier == "quick" else 30000):
-        yield _gen_send(rng)
+                yield {"op": "send", "ops": ops, "cuts": [k], **extra}
+    for i in range(3000 if tier == "quick" else 30000):
+        yield _gen_send(rng, neg=(i % 2 == 0))
+
+
+def _shrink_tok(t):
+    """smaller byte strings: a pattern token by halving / one less / as its first bytes in hex; hex by dropping one byte"""
+    if t.startswith("#"):
+        n, k = t[1:].split(".")
+        n = int(n)
+        if n > 64:
+            for m in (n // 2, n - 1024, n - 1):
+                if 0 < m < n:
+                    yield f"#{m}.{k}"
+        else:
+            yield hx(unhx(t))
+        return
+    b = unhx(t)
+    for j in range(len(b)):
+        yield hx(b[:j] + b[j + 1:])
 
 
 def shrink(c):
@@ -321,28 +544,39 @@ def shrink(c):
                 yield {"op": "recv", "segs": segs[:i] + [hx(b[:j] + b[j + 1:])] + segs[i + 1:]}
         return
     ops, cuts = c["ops"], c["cuts"]
+    extra = {"accept": c["accept"]} if "accept" in c else {}
+
+    def mk(ops_, cuts_=cuts, extra_=extra):
+        return {"op": "send", "ops": ops_, "cuts": cuts_, **extra_}
     if cuts:
-        yield {"op": "send", "ops": ops, "cuts": []}
-        for i in range(len(cuts)):
-            yield {"op": "send", "ops": ops, "cuts": cuts[:i] + cuts[i + 1:]}
+        yield mk(ops, [])
+        if len(cuts) > 8:
+            yield mk(ops, cuts[:len(cuts) // 2])
+            yield mk(ops, cuts[len(cuts) // 2:])
+        for i in range(len(cuts) if len(cuts) <= 40 else 0):
+            yield mk(ops, cuts[:i] + cuts[i + 1:])
+    if extra.get("accept"):
+        yield mk(ops, cuts, {"accept": False})
+    if "accept" in extra and not any(op[0] in "cn" for op in ops):
+        yield mk(ops, cuts, {})
     for i in range(len(ops)):
         if len(ops) > 1:
-            yield {"op": "send", "ops": ops[:i] + ops[i + 1:], "cuts": cuts}
+            yield mk(ops[:i] + ops[i + 1:])
     for i, op in enumerate(ops):
         if op[0] == "w":
-            b = unhx(op[1])
-            for j in range(len(b)):
-                yield {"op": "send", "ops": ops[:i] + [["w", hx(b[:j] + b[j + 1:])]] + ops[i + 1:], "cuts": cuts}
-        else:
+            for t in _shrink_tok(op[1]):
+                yield mk(ops[:i] + [["w", t]] + ops[i + 1:])
+        elif op[0] == "n":
+            for t in _shrink_tok(op[2]):
+                yield mk(ops[:i] + [["n", op[1], t]] + ops[i + 1:])
+        elif op[0] == "s":
             el = op[1]
             if len(op) > 2 and op[2] != "list":
-                yield {"op": "send", "ops": ops[:i] + [["s", el]] + ops[i + 1:], "cuts": cuts}
+                yield mk(ops[:i] + [["s", el]] + ops[i + 1:])
             for k in range(len(el)):
-                yield {"op": "send", "ops": ops[:i] + [["s", el[:k] + el[k + 1:]] + op[2:]] + ops[i + 1:], "cuts": cuts}
-                b = unhx(el[k])
-                for j in range(len(b)):
-                    yield {"op": "send", "ops": ops[:i] + [["s", el[:k] + [hx(b[:j] + b[j + 1:])] + el[k + 1:]] + op[2:]] + ops[i + 1:],
-                           "cuts": cuts}
+                yield mk(ops[:i] + [["s", el[:k] + el[k + 1:]] + op[2:]] + ops[i + 1:])
+                for t in _shrink_tok(el[k]):
+                    yield mk(ops[:i] + [["s", el[:k] + [t] + el[k + 1:]] + op[2:]] + ops[i + 1:])
 
 
 def tag(c, out):
@@ -358,7 +592,13 @@ def tag(c, out):
         return f"recv:{ev}:{state}:{min(len(c['segs']), 3)}"
     pay = _payload(c)
     sp = "".join(t for t, b in (("F", b"\xff"), ("L", b"\n"), ("R", b"\r")) if b in pay)
-    kinds = "".join(sorted({op[0] for op in c["ops"]} | {op[2][0].upper() for op in c["ops"] if len(op) > 2 and op[2] != "list"}))
+    kinds = "".join(sorted({op[0] for op in c["ops"]} | {op[2][0].upper() for op in c["ops"] if op[0] == "s" and len(op) > 2 and op[2] != "list"}))
+    if "accept" in c:
+        kinds += "+" if c["accept"] else "-"
+    if _isbig(c):
+        cuts = c["cuts"]
+        mode = "whole" if not cuts else f"every{cuts[0]}" if len(cuts) > 4 else "random"
+        return f"send:Z{len(pay).bit_length()}:{kinds}:{sp}:{mode}:{ev}:{state}"
     split = ""
     if out.startswith("wire="):
         w = unhx(out.split(" ", 1)[0][5:])
